@@ -2,7 +2,7 @@
 // For every duplicate-free ordered list over the three service names (16 lists) it
 // builds the real gin engine with newRouter (hook NewRouterForVerif), enumerates
 // engine.Routes(), and - with OAuth2Required = true and a real RSA key as NRF
-// certificate - sends every (method, path) with seven kinds of bad bearer token
+// certificate - sends every (method, path) with eleven kinds of bad token
 // through httptest, in three modes: the order of the real start-up (router built
 // while OAuth2Required is still false, the flag set by the NRF registration
 // afterwards), the flag set before the router is built, and the flag set with no
@@ -123,6 +123,11 @@ func main() {
 		{"rs512-wrong-key", "Bearer " + sign(jwt.SigningMethodRS512, otherKey)},
 		{"rs256-right-key", "Bearer " + sign(jwt.SigningMethodRS256, nrfKey)},
 		{"no-bearer-prefix", sign(jwt.SigningMethodRS512, otherKey)},
+		// credentials of another scheme, or no credentials after the scheme: not a token signed by the NRF key either
+		{"basic-scheme", "Basic dXNlcjpwYXNzd29yZA=="},
+		{"token-scheme-foreign-key", "Token " + sign(jwt.SigningMethodRS512, otherKey)},
+		{"bearer-no-credentials", "Bearer"},
+		{"one-word", "garbage"},
 	}
 	valid := "Bearer " + sign(jwt.SigningMethodRS512, nrfKey)
 
